@@ -141,6 +141,38 @@ def judgeLaunches (ops obs : List Json) : List Fail × List Key :=
     | none => none
   (reruns ++ dups ls, explained.eraseDups)
 
+/-! ### a batch of queued database operations is one transaction -/
+
+/-- `kill_at_boundary` on the real database file: a scheduler that dies at the FIRST commit boundary of a main loop -
+before the transaction or anywhere inside it - leaves the `task_states` / `task_outputs` rows exactly as they were
+after the previous op (key `ts` of the observation before, `dead_db.ts` = the file as the dead process left it), and
+the `task_pool` table exactly as the last completed main loop wrote it (unless something committed in between). -/
+def judgeAtomic (ops obs : List Json) : List Fail :=
+  let st := steps ops obs
+  st.flatMap fun (c, op, ob) =>
+    if jBoolField? ob "crashed" != some true || jNatField? op "crash_at" != some 0 then [] else
+    match jOptField ob "dead_db" with
+    | none => []
+    | some dd =>
+      let where_ := match jOptField op "crash_stmt" with
+        | some j => s!"inside the transaction of its first commit (after {j.compress} statements)"
+        | none => "at its first commit boundary"
+      let prevTs := (obs.drop (c - 1)).head?.bind fun pb => jOptField pb "ts"
+      let f1 : List Fail := match prevTs with
+        | some t => if fld dd "ts" == t then [] else
+            [⟨false, s!"the main loop of op {c} was killed {where_}: the task_states / task_outputs rows in the database file are {(fld dd "ts").compress}, before that main loop they were {t.compress}: the batch was not one transaction"⟩]
+        | none => []
+      -- the pool table as last observed after a main loop, when nothing committed since
+      let before := (obs.take c).zipIdx
+      let lastDb := (before.filter fun (pb, _) => (jOptField pb "db").isSome).getLast?
+      let f2 : List Fail := match lastDb with
+        | some (pb, l) =>
+          let quiet := (before.filter fun (_, i) => i > l).all fun (qb, _) => jNatField? qb "ncommit" == some 0
+          if !quiet || fld dd "pool" == fld pb "db" then [] else
+            [⟨false, s!"the main loop of op {c} was killed {where_}: the task_pool table in the database file is {(fld dd "pool").compress}, the last main loop had left {(fld pb "db").compress}: the batch was not one transaction"⟩]
+        | none => []
+      f1 ++ f2
+
 /-! ### differential judge -/
 
 def insertKey (k : Key) (l : List Key) : List Key := if l.contains k then l else l ++ [k]
@@ -315,7 +347,7 @@ def handle (i o : Json) : Except String Reply := do
   let ops := (jArrField? i "ops").getD []
   let obs := obsList o
   let jl := judgeLaunches ops obs
-  let fails := jl.1 ++ judgeDiff i c.graph ops obs jl.2
+  let fails := judgeAtomic ops obs ++ jl.1 ++ judgeDiff i c.graph ops obs jl.2
   match fails.find? (!·.known) with
   | some f => return { model := modelObs c, holds := false, why := f.msg }
   | none =>
